@@ -12,7 +12,7 @@ LEVEL = "model_checking"
 EXPLANATION = ("symbolic execution of the real state_changed listener, State.update/notify_var_get, ident_*_values_changed and both trigger loops through the "
                "full stack; the history of entity operations (which entity, which operation, which value, burst or settled) is symbolic")
 BOUNDS = {"quick": "2 operations over 2 entities x {write one of 3 values, bump attribute, drop attribute, delete}, settled or burst; 15 trigger forms x 2 subsystems",
-          "thorough": "3 operations"}
+          "thorough": "3 operations (the third on entity a, one of: write 1, write 2, bump attribute, delete)"}
 OUTSIDE = "Home Assistant's own coalescing of state_changed events; STATE_RE on names outside [a-z_0-9.]; more operations than the bound; entity names other than the two used"
 ASSUMPTIONS = [
     "stub Home Assistant state machine fires one state_changed per effective write (identical writes dropped, as HA does); listeners run as tasks in firing order",
@@ -95,6 +95,7 @@ def expect_run(form, ent, old, new, model):
 def history(e1: int, o1: int, b1: bool, e2: int, o2: int, b2: bool, e3: int, o3: int) -> bool:
     """
     pre: 0 <= e1 <= 1 and 0 <= e2 <= 1 and 0 <= e3 <= 1 and 0 <= o1 <= 5 and 0 <= o2 <= 5 and 0 <= o3 <= 5
+    pre: P("k") < 3 or (e3 == 0 and o3 in (1, 2, 3, 5))
     post: _
     """
     from vlib.world import mkworld, SEC
